@@ -47,6 +47,8 @@ def random_scripts(rng, n, fault_at=None, fault=None):
     if fault_at is not None:
         if fault == 'nonconv':
             out[fault_at] = [('big', 'same')] * 50
+        elif fault == 'small-then-same':
+            out[fault_at] = [('small', 'same')]          # converges; the fault is the post-solution hook's (set by the caller)
         else:
             out[fault_at] = [(fault, 'same'), ('zero', 'same')]
     return out
@@ -310,14 +312,14 @@ def run_shard(ctx):
                         ctx.violation('label-error-after-solving', f'{where}={lab!r} raised KeyError after solving something: log {A.__dict__["v_log"][:3]}', case)
             # ---- single fault at every period, every policy ---------------------------------
             for q in range(n):
-                for fault in ('exc', 'nan', 'pinf', 'warn', 'nonconv'):
+                for fault in ('exc', 'nan', 'pinf', 'warn', 'nonconv', 'after-exc'):
                     for errors in ('raise', 'skip', 'ignore', 'replace'):
                         for failures in ('raise', 'ignore'):
                             if ctx.quick and rng.random() < 0.5:
                                 continue
                             cfe = rng.choice([True, False])
                             opts = dict(min_iter=rng.choice([0, 0, 1, 2, 3]), max_iter=5, tol=0.5, failures=failures, errors=errors, catch_first_error=cfe)
-                            scripts = random_scripts(rng, n, q, fault)
+                            scripts = random_scripts(rng, n, q, fault if fault != 'after-exc' else 'small-then-same')
                             for p in range(n):
                                 if p != q:
                                     scripts[p] = [('small', 'same')]   # converges at pass 1 or 2
@@ -336,6 +338,8 @@ def fault_case(ctx, Model, spec, scripts, opts, q, fault, case):
     n = spec.n
     A = make(Model, spec, scripts, 0.5)
     clean = make(Model, spec, scripts, 0.5)
+    if fault == 'after-exc':
+        A.__dict__['v_after_fault_by_t'] = {q: 'exc'}       # period q converges, then its post-solution hook raises
     pristine = snapshot(clean)
     r = call(A.solve, **opts)
     # the twin solves the earlier periods one by one
@@ -343,7 +347,7 @@ def fault_case(ctx, Model, spec, scripts, opts, q, fault, case):
         call(clean.solve_t, p, **opts)
     sa, sc = snapshot(A), snapshot(clean)
     errors, failures = opts['errors'], opts['failures']
-    raises = (fault == 'exc') or (fault in ('nan', 'pinf', 'warn') and errors == 'raise') or (fault == 'nonconv' and failures == 'raise')
+    raises = (fault in ('exc', 'after-exc')) or (fault in ('nan', 'pinf', 'warn') and errors == 'raise') or (fault == 'nonconv' and failures == 'raise')
     st = ''.join(sa['status'])
     # earlier periods complete and equal to the single-period twin
     for name in sa:
@@ -367,7 +371,10 @@ def fault_case(ctx, Model, spec, scripts, opts, q, fault, case):
                 if not (x == y or (isinstance(x, float) and math.isnan(x) and math.isnan(y))):
                     ctx.violation('later-period-touched', f'fault {fault} at period {q} raised, but {name}[{p}] changed from {y!r} to {x!r}', case)
                     return
-        want_status = {'exc': 'E' if errors == 'raise' else None, 'nonconv': 'F'}.get(fault, 'E')
+        want_status = {'exc': 'E' if errors == 'raise' else None, 'nonconv': 'F', 'after-exc': None}.get(fault, 'E')
+        if fault == 'after-exc' and st[q] == '.' and (sa['status'][q], sa['iterations'][q]) != (pristine['status'][q], pristine['iterations'][q]):
+            # '.' is what a period carries when its solve returned True; this one raised from its post-solution hook
+            ctx.violation('failing-period-status', f'the post-solution hook of period {q} raised, yet the period is newly recorded as solved (status ".", iterations {sa["iterations"][q]})', case)
         if want_status is not None and st[q] != want_status:
             ctx.violation('failing-period-status', f'fault {fault} at period {q} under errors={errors}: status {st[q]!r}, the policy prescribes {want_status!r}', case)
     else:
